@@ -20,6 +20,7 @@ import GambitV.Gen.PySigList
 import GambitV.Gen.PyParams
 import GambitV.Gen.PyCluster
 import GambitV.Gen.PyGetitem
+import GambitV.Gen.PySigListGetitem
 import GambitV.Model.Params
 import GambitV.Model.Bulk
 import GambitV.Model.Indexing
@@ -249,6 +250,16 @@ def getitem (sigs : List (List Nat)) (ix : Py.IdxVal) (real : String) : Option S
     | .raised e => "err:" ++ e.name
     | .fuelOut => "err:fuel"
   cmp "AdvancedIndexingMixin.__getitem__" Gen.concat_getitem.untranslatable gen real
+
+/-- the same dispatch as the list-backed collection inherits it (`SignatureList`: its own `_getitem_int` / `_getitem_int_array`) -/
+def getitemList (sigs : List (List Nat)) (ix : Py.IdxVal) (real : String) : Option String :=
+  let L : List (List Int) := sigs.map (fun g => g.map (fun (x : Nat) => (x : Int)))
+  let gen : String := match Gen.siglist_getitem L ix with
+    | .ok (.one x) => "one:" ++ natsOf (x.map Int.toNat)
+    | .ok (.many xs) => "many:" ++ natListsOf (xs.map (fun g => g.map Int.toNat))
+    | .raised e => "err:" ++ e.name
+    | .fuelOut => "err:fuel"
+  cmp "AdvancedIndexingMixin.__getitem__ (SignatureList)" Gen.siglist_getitem.untranslatable gen real
 
 /-- `calc_signature` (default accumulator) on a list of sequences: the definition generated from the current sources of `calc_signature`,
 `accumulate_kmers`, `KmerMatch.kmer_index`, `find_kmers`, … against the real signature -/
